@@ -12,6 +12,31 @@ RANGE_IDIOMS = (
 )
 
 
+def ceil_blocks(it):
+    """the counter loop `1..ceil(klen/32)`: the integer spellings of the ceiling division (with or without a saturating
+    conversion to u32) next to the float one of the reviewed code"""
+    import re as _re
+    m = _re.match(r'^(?:into_iter\()?Range::Range\{1, (.*)\}\)?$', it)
+    if not m:
+        return False
+    e = m.group(1)
+    for _ in range(4):
+        m2 = _re.match(r'^unwrap_or\(try_from\((.*)\), 0xffffffff\)$', e) or _re.match(r'^\((.*) as u32\)$', e) or _re.match(r'^phi\((.*) \| 0xffffffff\)$', e) or _re.match(r'^phi\(0xffffffff \| (.*)\)$', e)
+        if not m2:
+            break
+        e = m2.group(1)
+    K = '$klen'
+    forms = (
+        'div_ceil(%s, 32)' % K,
+        'Div(AddWithOverflow(%s, 31).0, 32)' % K,
+        'AddWithOverflow(Div(%s, 32), (Ne(Rem(%s, 32), 0) as usize)).0' % (K, K),
+        'AddWithOverflow(Div(%s, 32), ((Ne(Rem(%s, 32), 0) as u8) as usize)).0' % (K, K),
+        'phi(AddWithOverflow(Div(%s, 32), 1).0 | Div(%s, 32))' % (K, K),
+        'phi(Div(%s, 32) | AddWithOverflow(Div(%s, 32), 1).0)' % (K, K),
+    )
+    return e in forms
+
+
 def variant_names(cx, adt_suffix):
     for n, a in cx.F.adts.items():
         if n == adt_suffix or n.endswith('::' + adt_suffix):
@@ -75,7 +100,7 @@ def check_kdf(cx, qual, rule='F-KDF'):
     for b2 in nx:
         e = cn.c(norm(P.operand(fn.blocks[b2]['term']['args'][0], b2, len(fn.blocks[b2]['stmts']))))
         idioms.append(e)
-    ok = any(any(r in e for r in RANGE_IDIOMS) for e in idioms)
+    ok = any(any(r in e for r in RANGE_IDIOMS) for e in idioms) or any(ceil_blocks(e) for e in idioms)
     cx.add(rule, fn.short + '/block-count', ok, 'loop runs for counters 1..ceil(klen/32)-1 and the last block follows (accepted idioms: %d): %s' % (len(RANGE_IDIOMS), idioms), fn.loc())
 
 
